@@ -164,6 +164,15 @@ class Interp:
     (path marker for "this path went through a handler").
     """
 
+    # a subclass whose `ev` models failing lookups sets `_fault` to a short
+    # description while it evaluates; `run` then lets the node raise (only its
+    # 'exc' edges are followed) and tells `fault_at`.  The base `ev` never
+    # sets it.
+    _fault = None
+
+    def fault_at(self, f, g, node, env, what):
+        """hook: evaluating `node` of f in env raised (`what`)"""
+
     def __init__(self, prog, cls, track=(), inputs=None, depth=3, observe=None,
                  max_states=50000, symbolic=False):
         self.prog    = prog
@@ -896,6 +905,7 @@ class Interp:
         todo = [(g.entry.id if start is None else start, fe0)]
         seen = set()
         exits = set()
+        outer_fault = self._fault      # (run of a callee inside an expression)
         while todo:
             nid, fe = todo.pop()
             if (nid, fe) in seen:
@@ -913,6 +923,7 @@ class Interp:
             node = g.nodes[nid]
             env = {k: thaw(v) for k, v in fe}
             allowed = None
+            self._fault = None
             if node.kind == 'test':
                 t = truth(self.ev(f, node.ast, env))
                 if t is not None:
@@ -946,9 +957,15 @@ class Interp:
                         env.pop(lk, None)
             observed = False
             cache = {}
+            raised = self._fault        # the test / the iterable raised
+            if raised is not None:
+                self._fault = None
+                self.fault_at(f, g, node, env, raised)
             for e in g.succ[nid]:
                 if e.label == 'exc':
                     todo.append((e.dst, fe))
+                    continue
+                if raised is not None:
                     continue
                 if allowed is not None and e.label in ('T', 'F', 'iter',
                                                        'done') and \
@@ -960,6 +977,11 @@ class Interp:
                 ck = e.label if node.kind == 'for' else ''
                 if ck not in cache:
                     outs = self.effects(f, node, e, env, depth)
+                    if self._fault is not None:
+                        # the statement raised: it has no normal continuation
+                        what, self._fault = self._fault, None
+                        self.fault_at(f, g, node, env, what)
+                        outs = []
                     if forced is not None and e.label == 'iter':
                         for x in outs:
                             self.assign(f, node.ast.target, forced, x)
@@ -971,6 +993,7 @@ class Interp:
                         x = dict(x)
                         del x['@L%d' % e.dst]   # stale state of a left loop
                     todo.append((e.dst, self._fz(x)))
+        self._fault = outer_fault
         return exits
 
     @staticmethod
@@ -1362,7 +1385,48 @@ def _check_passed(prog, rep, rid, f, g, smap, pname, cur, tgt, tgt_p, retnode):
 # ------------------------------------------------------------------------------
 # R14.2  only _update_pilot drives Pilot._update
 #
-def r14_2(prog, rep, rid='R14.2', tier='quick', by_value=False):
+def _helpers_of(prog, cls, methods, up):
+    """methods of the class that are reached only through plain self calls
+    from `up` (directly or through other such helpers): {name}.  A method
+    that is also called from elsewhere, referenced without being called
+    (handed out as a callback), public, or overridden in a subclass is not a
+    helper of `up`."""
+    refs = {}       # method name -> [(user name, is plain call)]
+    for mname, f in methods.items():
+        called = set()
+        for c in calls_in(f.node, nested=True):
+            if isinstance(c.func, ast.Attribute) and \
+                    isinstance(c.func.value, ast.Name) and \
+                    c.func.value.id == 'self' and c.func.attr in methods:
+                called.add(id(c.func))
+                refs.setdefault(c.func.attr, []).append((mname, True))
+        for n in walk(f.node, nested=True):
+            if isinstance(n, ast.Attribute) and id(n) not in called and \
+                    isinstance(n.value, ast.Name) and n.value.id == 'self' \
+                    and n.attr in methods and isinstance(n.ctx, ast.Load):
+                refs.setdefault(n.attr, []).append((mname, False))
+    overridden = set()
+    for sub in prog.subclasses(cls):
+        if sub is not cls:
+            overridden |= set(sub.methods)
+    out = set()
+    changed = True
+    while changed:
+        changed = False
+        for name, users in refs.items():
+            if name in out or name == up.name or not name.startswith('_') \
+                    or name.startswith('__') or name in overridden or \
+                    methods[name].cls is not cls:
+                continue
+            if all(plain and (u == up.name or u in out)
+                   for u, plain in users):
+                out.add(name)
+                changed = True
+    return out
+
+
+def r14_2(prog, rep, rid='R14.2', tier='quick', by_value=False,
+          unknown_by_value=False):
     rep.rule(rid, 'Pilot._state is written only by Pilot.__init__/_update; '
              'Pilot._update is called only from PilotManager._update_pilot, '
              'for a known pilot, either with an unchanged state or once per '
@@ -1386,6 +1450,11 @@ def r14_2(prog, rep, rid='R14.2', tier='quick', by_value=False):
     al = I.Aliases(prog, pm, methods, 'self._pilots')
     up = prog.method(PMGR[0], PMGR[1], '_update_pilot')
     sites = []
+    # R14.7 follows _update_pilot into the self calls that hand something to
+    # a Pilot._update and decides what arrives there by value: a helper that
+    # only _update_pilot reaches is part of it
+    helpers = _helpers_of(prog, pm, methods, up) if by_value else set()
+    n_sites = 0
     for mname, f in sorted(methods.items()):
         for c in calls_in(f.node, nested=True):
             if not (isinstance(c.func, ast.Attribute) and
@@ -1394,6 +1463,15 @@ def r14_2(prog, rep, rid='R14.2', tier='quick', by_value=False):
             if not al.is_rooted_expr(mname, c.func.value):
                 continue
             rep.saw(f)
+            if mname in helpers:
+                n_sites += 1
+                rep.ok(rid, f, 'Pilot._update called from %s, which is '
+                       'reached only from _update_pilot' % mname, f.loc(c))
+                rep.ok(rid, f, '%s: known pilot and replayed state as R14.9 '
+                       '/ R14.7 decide by value' % short(c, 40), f.loc(c))
+                rep.ok(rid, f, '%s is applied as R14.7 decides by value'
+                       % short(c, 40), f.loc(c))
+                continue
             inside = f is up
             rep.check(inside, rid, f, 'Pilot._update called from '
                       '_update_pilot', construct=c,
@@ -1407,10 +1485,10 @@ def r14_2(prog, rep, rid='R14.2', tier='quick', by_value=False):
                       'back to PMGR_ACTIVE')
             if inside:
                 sites.append(c)
-    if len(sites) < 2:
+    if len(sites) + n_sites < 2:
         raise AnalysisError('R14.2: fewer than 2 Pilot._update call sites in '
                             '%s' % up.where)
-    _r14_2_sites(prog, rep, rid, up, sites, by_value)
+    _r14_2_sites(prog, rep, rid, up, sites, by_value, unknown_by_value)
     if tier == 'thorough':
         for m in prog.modules.values():
             for c in calls_in(m.tree, nested=True):
@@ -1457,7 +1535,8 @@ def resolve_aliases(f, expr, depth=0):
     return unparse(T().visit(copy.deepcopy(expr)))
 
 
-def _r14_2_sites(prog, rep, rid, up, sites, by_value=False):
+def _r14_2_sites(prog, rep, rid, up, sites, by_value=False,
+                 unknown_by_value=False):
     g = cfg_of(up)
     smap = I.stmt_node_map(g)
     params = [p for p in up.params if p != 'self']
@@ -1489,6 +1568,14 @@ def _r14_2_sites(prog, rep, rid, up, sites, by_value=False):
                 isinstance(recv.slice, ast.Name) and is_uid(recv.slice.id):
             pidname = recv.slice.id
         if pidname is None:
+            if by_value and unknown_by_value:
+                # (a cached `pilot = self._pilots.get(pid)`, say: R14.7 and
+                # R14.9 evaluate the receiver instead of reading its spelling)
+                rep.ok(rid, up, '%s: known pilot as R14.9 decides by value'
+                       % short(c, 40), up.loc(c))
+                rep.ok(rid, up, '%s is applied as R14.7 decides by value'
+                       % short(c, 40), up.loc(c))
+                continue
             raise AnalysisError('UNRECOGNISED-IDIOM %s: receiver of _update '
                                 'is not self._pilots[<uid of %s>]: %s'
                                 % (up.where, pdict, short(c)))
@@ -1504,8 +1591,13 @@ def _r14_2_sites(prog, rep, rid, up, sites, by_value=False):
                     known = (lab == 'F') or (known or False)
                 elif isinstance(a.ops[0], ast.In):
                     known = (lab == 'T') or (known or False)
-        rep.check(bool(known), rid, up, 'update of %s is guarded by the '
-                  'pilot being known' % short(recv, 40), construct=c,
+        # (R14.9 decides this for the method as a whole by value - guard
+        # in any spelling, lookups in front of the guard included; the
+        # spelling is only looked for where that rule could not decide)
+        rep.check(bool(known) or unknown_by_value, rid, up,
+                  'update of %s is guarded by the pilot being known%s'
+                  % (short(recv, 40), '' if known else ' (R14.9, by value)'),
+                  construct=c,
                   message='%s: this Pilot._update is reached without (or '
                   'with an inverted) test `%s not in self._pilots`: a '
                   'notification for an unknown pilot is not ignored'
@@ -1617,22 +1709,88 @@ class _ReplayInterp(Interp):
     decides that the function meets it); self callees that hand something to
     an `_update` are inlined."""
 
-    def __init__(self, prog, cls, progress_f, tab, inv, final, **kw):
+    def __init__(self, prog, cls, progress_f, tab, inv, final, detect=False,
+                 **kw):
         Interp.__init__(self, prog, cls, track=[SEQ], depth=3, **kw)
         self.progress_f = progress_f
         self.tab, self.inv, self.final = tab, inv, final
+        # detect: model the lookups that fail on the evaluated values - a key
+        # that a completely known dict does not have (KeyError), an attribute
+        # or method of None (AttributeError)
+        self.detect = detect
+        self.faults = []        # (f, node, what, handled, in callee, '@c')
+        self._intry = []        # per active inlined call: call site in a try
 
     def _direct_write(self, f):
         return any(isinstance(c.func, ast.Attribute) and
                    c.func.attr == '_update' for c in calls_in(f.node))
 
+    def _lookup_fault(self, f, e, env):
+        """description of the exception the evaluation of the outermost
+        operation of e raises on the values of env, or None"""
+        if isinstance(e, ast.Subscript) and \
+                isinstance(e.ctx, ast.Load) and \
+                not isinstance(e.slice, ast.Slice):
+            base = self.ev(f, e.value, env)
+            if isinstance(base, dict) and self._fault is None:
+                idx = self.ev(f, e.slice, env)
+                try:
+                    if idx is not UNK and not isinstance(idx, Sym) and \
+                            not any(k is UNK or isinstance(k, Sym)
+                                    for k in base) and idx not in base:
+                        return 'KeyError(%r) in `%s`' % (idx, short(e, 50))
+                except TypeError:
+                    pass
+            return None
+        if isinstance(e, ast.Attribute) and isinstance(e.ctx, ast.Load):
+            if self.ev(f, e.value, env) is None and self._fault is None and \
+                    not (isinstance(e.value, ast.Constant)):
+                return 'AttributeError: `%s` is None in `%s`' % (
+                    short(e.value, 30), short(e, 50))
+        return None
+
     def ev(self, f, e, env):
+        if self.detect and self._fault is None and \
+                isinstance(e, (ast.Subscript, ast.Attribute)) and \
+                not (_key_of(e) in env or _key_of(e) in self.inputs):
+            w = self._lookup_fault(f, e, env)
+            if w is not None:
+                self._fault = w
+                return UNK
         if isinstance(e, ast.Attribute) and e.attr == 'state' and \
                 _key_of(e) not in env:
             b = Interp.ev(self, f, e.value, env)
             if isinstance(b, str) and b == PMARK:
                 return env.get(PSTATE, UNK)
         return Interp.ev(self, f, e, env)
+
+    def effects(self, f, node, edge, env, depth):
+        a = node.ast
+        if self.detect and node.kind == 'stmt' and self._fault is None and \
+                isinstance(a, ast.Expr) and isinstance(a.value, ast.Call):
+            # a call statement: its receiver and arguments are evaluated
+            # (the base class only looks at what the call changes)
+            c = a.value
+            if isinstance(c.func, ast.Attribute):
+                w = self._lookup_fault(f, c.func, env)
+                if self._fault is None:
+                    self._fault = w
+            for x in list(c.args) + [k.value for k in c.keywords]:
+                if self._fault is None and not isinstance(x, ast.Starred):
+                    self.ev(f, x, env)
+        self._intry.append(bool(node.tries))
+        try:
+            return Interp.effects(self, f, node, edge, env, depth)
+        finally:
+            self._intry.pop()
+
+    def fault_at(self, f, g, node, env, what):
+        # (called after the effects of the node: _intry holds the call sites
+        # of the active inlined calls only)
+        handled = any(e.label == 'exc' and e.dst != g.raise_.id and
+                      g.exit.id in g.reachable(e.dst) for e in g.succ[node.id])
+        self.faults.append((f, node, what, handled, any(self._intry),
+                            bool(env.get('@c'))))
 
     def progress_spec(self, cur, tgt, real=UNK):
         """(state, passed) as R14.1 specifies it; where the specification
@@ -1654,6 +1812,13 @@ class _ReplayInterp(Interp):
         return (st, [])
 
     def _call(self, f, c, env):
+        if self.detect and self._fault is None and \
+                isinstance(c.func, ast.Attribute):
+            # (the receiver of a method call is evaluated like an attribute)
+            w = self._lookup_fault(f, c.func, env)
+            if w is not None:
+                self._fault = w
+                return UNK
         try:
             g = self.prog.resolve_call(f, c, self.cls if f.cls else None)
         except Exception:
@@ -1832,7 +1997,10 @@ def r14_7(prog, rep, rid='R14.7'):
                     raise AnalysisError('UNRECOGNISED-IDIOM %s: the updates '
                                         'made below the inlining depth cannot '
                                         'be followed' % up.where)
-                seqs.append((seq, bool(d.get('@c'))))
+                # (a path through an `except` clause is hypothetical, like
+                # one behind an undecided test: nothing says the exception
+                # occurs for this input)
+                seqs.append((seq, bool(d.get('@c')) or bool(d.get('@h'))))
             wrong = [q for q, c in seqs if not conforms(cur, tgt, q)]
             decided = [q for q, c in seqs if not c and
                        not conforms(cur, tgt, q)]
@@ -1928,6 +2096,463 @@ def r14_7(prog, rep, rid='R14.7'):
                   'facade keeps the state %s and wait() never sees %s'
                   % (rej, s, rej, s))
     return True
+
+
+# ------------------------------------------------------------------------------
+# R14.9  notifications for unknown pilots are ignored, decided by value
+#
+UNKNOWN_UID = 'pilot.unknown'
+
+
+def _linear_table(prog, rid):
+    tab = prog.const(STATES, '_pilot_state_values')
+    final = prog.const(STATES, 'FINAL')
+    if not isinstance(tab, dict) or not isinstance(final, list):
+        raise AnalysisError('%s: _pilot_state_values / FINAL do not fold'
+                            % rid)
+    states = sorted((s for s in tab if s is not None),
+                    key=lambda s: (tab[s], s))
+    inv = {v: k for k, v in tab.items() if k is not None and k not in final}
+    n = len(inv)
+    if sorted(inv) != list(range(n)) or any(tab.get(s) != n for s in final):
+        raise AnalysisError('%s: the pilot state table is not a linear order '
+                            'with a shared final value (see R14.1)' % rid)
+    return tab, final, inv, states
+
+
+def r14_9(prog, rep, rid='R14.9'):
+    """returns True when the rule could decide (R14.2 then does not look for
+    the spelling `pid not in self._pilots` in front of each update)"""
+    rep.rule(rid, 'a notification for a pilot that PilotManager._pilots does '
+             'not hold is ignored: _update_pilot, evaluated for such a '
+             'notification, performs no lookup that fails (a key self._pilots '
+             'does not have, an attribute of the None that .get returned), '
+             'hands nothing to a Pilot._update and reaches its normal end',
+             minimum=2)
+    tab, final, inv, states = _linear_table(prog, rid)
+    pm = prog.cls(*PMGR)
+    up = prog.method(PMGR[0], PMGR[1], '_update_pilot')
+    prog_f = prog.function(STATES, '_pilot_state_progress')
+    rep.saw(up)
+    params = [p for p in up.params if p != 'self']
+    if not params:
+        raise AnalysisError('UNRECOGNISED-IDIOM %s: no pilot_dict parameter'
+                            % up.where)
+    pdict = params[0]
+    applied, blind = [], []
+
+    def observe(f, node, env):
+        if node.kind != 'stmt' or node.ast is None or \
+                isinstance(node.ast, (ast.FunctionDef, ast.ClassDef,
+                                      ast.AsyncFunctionDef)):
+            return
+        for c in calls_in(node.ast):
+            if not (isinstance(c.func, ast.Attribute) and
+                    c.func.attr == '_update'):
+                continue
+            recv = c.func.value
+            if isinstance(recv, ast.Name) and recv.id in ('self', 'cls'):
+                continue
+            rv = ip.ev(f, recv, env)
+            if ip._fault is not None or rv is None:
+                return                  # the statement raises: see fault_at
+            if isinstance(rv, str) and rv == PMARK:
+                applied.append((f, c, bool(env.get('@c'))))
+            elif rv is UNK or isinstance(rv, Sym):
+                blind.append((f, c, bool(env.get('@c'))))
+
+    ip = _ReplayInterp(prog, pm, prog_f, tab, inv, final, detect=True,
+                       observe=observe,
+                       inputs={'self._pilots': {PUID: PMARK},
+                               '_pilot_state_inv': inv,
+                               "%s['uid']" % pdict: UNKNOWN_UID},
+                       max_states=200000)
+    n_exits = 0
+    for tgt in states:
+        ip.inputs["%s['state']" % pdict] = tgt
+        n_exits += len(ip.run(up, {SEQ: (), PSTATE: UNK}, inlined=True))
+    rep.stat('interp_states', ip.states)
+    raises, seen = [], set()
+    for f, node, what, handled, below_try, cond in ip.faults:
+        if handled or (f.qual, what) in seen:
+            continue           # (the path through the handler is followed)
+        seen.add((f.qual, what))
+        if cond:
+            rep.info(rid, f, 'unknown pilot: %s on a path whose conditions '
+                     'cannot be decided' % what, f.loc(node.ast))
+        elif below_try:
+            raise AnalysisError('UNRECOGNISED-IDIOM %s: %s below a call that '
+                                'sits in a try block: cannot decide who '
+                                'handles it' % (f.where, what))
+        else:
+            raises.append((f, node, what))
+    hist = 'a state notification for a pilot of another pilot manager (all ' \
+           'pilot managers listen on the same state pubsub) arrives in a ' \
+           'bulk together with notifications for known pilots'
+    for f, node, what in raises:
+        rep.bad(rid, f, 'unknown-pilot:%s' % what.split('(')[0].split(':')[0],
+                '%s: for a notification whose uid is not in self._pilots '
+                'this statement raises %s - it is evaluated before (or '
+                'without) the test that lets unknown pilots return: the '
+                'notification is not ignored' % (f.qual, what),
+                f.loc(node.ast), history=hist + ': the exception leaves '
+                '_state_sub_cb in the subscriber thread and the rest of the '
+                'bulk message is dropped')
+    if not raises:
+        rep.ok(rid, up, 'no lookup fails for a notification of an unknown '
+               'pilot', up.loc())
+    dec = [(f, c) for f, c, cond in applied if not cond]
+    if blind and not raises and not dec:
+        f, c, cond = blind[0]
+        raise AnalysisError('UNRECOGNISED-IDIOM %s: receiver of `%s` cannot '
+                            'be evaluated for an unknown pilot'
+                            % (f.where, short(c, 60)))
+    for f, c in dec[:1]:
+        rep.bad(rid, f, c, '%s: a notification whose uid is not in '
+                'self._pilots is handed to the Pilot._update of a pilot this '
+                'manager holds (`%s`): the state of a foreign pilot is '
+                'applied to another pilot' % (f.qual, short(c, 60)),
+                f.loc(c), history=hist + ': the known pilot is moved to the '
+                'state of the foreign one')
+    if not dec:
+        rep.ok(rid, up, 'nothing is handed to Pilot._update for an unknown '
+               'pilot', up.loc())
+    if not n_exits and not raises and not dec:
+        raise AnalysisError('UNRECOGNISED-IDIOM %s: no path reaches the end '
+                            'of the method for an unknown pilot' % up.where)
+    return True
+
+
+# ------------------------------------------------------------------------------
+# R14.10  the task manager's scheduler keeps the normalised pilot state
+#
+TSCHED = ('tmgr/scheduler/base.py', 'TMGRSchedulingComponent')
+
+
+class _Ref:
+    """a local name bound to a dict that lives inside a known dict variable
+    (`rec = self._pilots[pid]`): reads and item stores go to that place"""
+    __slots__ = ('root', 'path')
+
+    def __init__(self, root, path):
+        self.root, self.path = root, tuple(path)
+
+    def __eq__(self, other):
+        return isinstance(other, _Ref) and \
+            (other.root, other.path) == (self.root, self.path)
+
+    def __hash__(self):
+        return hash(('Ref', self.root, self.path))
+
+    def __repr__(self):
+        return '&%s%s' % (self.root, ''.join('[%r]' % (x,) for x in self.path))
+
+
+class _RecordInterp(_ReplayInterp):
+    """_ReplayInterp with exact item stores into nested dicts of known content
+    (`self._pilots[pid]['state'] = x` with a known pid) and references to
+    such inner dicts held in locals"""
+
+    def _place(self, f, e, env):
+        """(root key, [index values]) of the place a subscript / .get chain
+        denotes inside a dict variable of known content, or None"""
+        idxs = []
+        while True:
+            if isinstance(e, ast.Subscript) and \
+                    not isinstance(e.slice, ast.Slice):
+                idxs.append(self.ev(f, e.slice, env))
+                e = e.value
+            elif isinstance(e, ast.Call) and not e.keywords and \
+                    isinstance(e.func, ast.Attribute) and \
+                    e.func.attr == 'get' and len(e.args) == 1:
+                idxs.append(self.ev(f, e.args[0], env))
+                e = e.func.value
+            else:
+                break
+        idxs.reverse()
+        k = _key_of(e)
+        if k is None:
+            return None
+        v = env.get(k)
+        if isinstance(v, _Ref):
+            k, idxs = v.root, list(v.path) + idxs
+            v = env.get(k)
+        if not isinstance(v, dict) or not idxs:
+            return None
+        for i in idxs:
+            if i is UNK or isinstance(i, (Sym, list, dict)):
+                return None
+        return k, idxs
+
+    def _direct_write(self, f):
+        # any store through a path / mutating call: helpers that write the
+        # records are followed
+        return any(True for _ in I.stores(f.node)) or \
+            _ReplayInterp._direct_write(self, f)
+
+    def _bind(self, f, call, g, env):
+        cenv = _ReplayInterp._bind(self, f, call, g, env)
+        a = g.node.args
+        pos = [x.arg for x in a.posonlyargs + a.args]
+        if g.cls is not None and pos and pos[0] in ('self', 'cls'):
+            pos = pos[1:]
+        bound = [(pos[i], x) for i, x in enumerate(call.args)
+                 if i < len(pos)] + \
+                [(kw.arg, kw.value) for kw in call.keywords if kw.arg]
+        for pn, x in bound:
+            if isinstance(x, ast.Starred) or pn not in cenv:
+                continue
+            pl = self._place(f, x, env)
+            if pl is not None and pl[0].startswith('self.') and \
+                    isinstance(self._at(env[pl[0]], pl[1]), dict):
+                cenv[pn] = _Ref(*pl)      # a record is passed by reference
+        return cenv
+
+    def effects(self, f, node, edge, env, depth):
+        outs = _ReplayInterp.effects(self, f, node, edge, env, depth)
+        a = node.ast
+        if node.kind == 'stmt' and isinstance(a, ast.Return) and \
+                isinstance(a.value, ast.Name):
+            # a record is returned by reference
+            for x in outs:
+                if isinstance(x.get(a.value.id), _Ref):
+                    x['@ret'] = x[a.value.id]
+        return outs
+
+    @staticmethod
+    def _at(d, idxs):
+        for i in idxs:
+            if not isinstance(d, dict) or i not in d:
+                return UNK
+            d = d[i]
+        return d
+
+    def ev(self, f, e, env):
+        if isinstance(e, ast.Name) and isinstance(env.get(e.id), _Ref):
+            r = env[e.id]
+            return self._at(env.get(r.root, UNK), r.path)
+        return _ReplayInterp.ev(self, f, e, env)
+
+    def assign(self, f, target, v, env, stmt=None):
+        if isinstance(target, ast.Subscript):
+            pl = self._place(f, target, env)
+            if pl is not None:
+                root, idxs = pl
+
+                def put(d, rest):
+                    if not isinstance(d, dict):
+                        return None
+                    d = dict(d)
+                    if len(rest) == 1:
+                        d[rest[0]] = v
+                        return d
+                    if rest[0] not in d:
+                        return None
+                    sub = put(d[rest[0]], rest[1:])
+                    if sub is None:
+                        return None
+                    d[rest[0]] = sub
+                    return d
+                new = put(env[root], idxs)
+                if new is not None:
+                    self._kill(env, root)
+                    env[root] = new
+                    src = stmt.value if isinstance(stmt, ast.Assign) and \
+                        len(stmt.targets) == 1 else None
+                    if isinstance(src, ast.Name) and isinstance(v, dict) and \
+                            isinstance(env.get(src.id), dict):
+                        # `self._pilots[pid] = record`: the local and the
+                        # slot are one object from now on
+                        env[src.id] = _Ref(root, idxs)
+                    return
+        if isinstance(target, ast.Name) and isinstance(stmt, ast.Assign) and \
+                len(stmt.targets) == 1 and stmt.targets[0] is target:
+            pl = self._place(f, stmt.value, env)
+            if pl is not None and isinstance(self._at(env[pl[0]], pl[1]),
+                                             dict):
+                self._kill(env, target.id, keep_self=False)
+                env[target.id] = _Ref(*pl)
+                return
+        return _ReplayInterp.assign(self, f, target, v, env, stmt)
+
+
+def r14_10(prog, rep, rid='R14.10'):
+    rep.rule(rid, 'the pilot state the task manager scheduler records '
+             '(TMGRSchedulingComponent._update_pilot_states, the only writer '
+             'of the state of a pilot record) is the later one of the '
+             'recorded and the notified state, for every pair of states of '
+             'the pilot state table: it never moves backwards and a final '
+             'state is never left for a non-final one', minimum=9)
+    tab, final, inv, states = _linear_table(prog, rid)
+    sc = prog.cls(*TSCHED)
+    up = prog.method(TSCHED[0], TSCHED[1], '_update_pilot_states')
+    prog_f = prog.function(STATES, '_pilot_state_progress')
+    rep.saw(up)
+    params = [p for p in up.params if p != 'self']
+    if not params:
+        raise AnalysisError('UNRECOGNISED-IDIOM %s: no parameter for the '
+                            'pilot notifications' % up.where)
+    plist = params[0]
+    ATTR = 'self._pilots'
+
+    # (a) who writes the state of a pilot record -------------------------------
+    classes = [sc] + [c for c in prog.subclasses(sc) if c is not sc]
+    n_w = 0
+    for c in classes:
+        methods = dict(c.methods)
+        al = I.Aliases(prog, c, methods, ATTR)
+        helpers = _helpers_of(prog, c, methods, up) if c is sc else set()
+        for mname, f in sorted(methods.items()):
+
+            def is_record(e, depth=0):
+                """e denotes one pilot record: self._pilots[..], .get(..), or
+                a local that is only ever bound to such (or runs over the
+                values of self._pilots); deeper parts of a record - the
+                pilot description kept in it - are something else"""
+                if isinstance(e, ast.Subscript):
+                    return unparse(e.value) == ATTR and \
+                        not isinstance(e.slice, ast.Slice)
+                if isinstance(e, ast.Call) and \
+                        isinstance(e.func, ast.Attribute) and \
+                        e.func.attr in ('get', 'setdefault') and e.args:
+                    return unparse(e.func.value) == ATTR
+                if isinstance(e, ast.Name) and depth < 3 and \
+                        e.id not in f.params:
+                    ds = _defs(f, e.id)
+                    loops = [n for n in walk(f.node, nested=True)
+                             if isinstance(n, (ast.For, ast.comprehension))
+                             and any(isinstance(x, ast.Name) and x.id == e.id
+                                     for x in ast.walk(n.target))]
+                    if loops:
+                        return not ds and all(
+                            isinstance(n.target, ast.Name) and
+                            unparse(n.iter) == ATTR + '.values()'
+                            for n in loops)
+                    return bool(ds) and all(
+                        i is None and is_record(v, depth + 1)
+                        for _, v, i in ds)
+                return False
+
+            for kind, target, stmt in I.stores(f.node, nested=True):
+                if not (isinstance(target, ast.Subscript) and
+                        isinstance(target.slice, ast.Constant) and
+                        target.slice.value == 'state' and
+                        al.is_rooted_expr(mname, target.value) and
+                        (is_record(target.value) or f is up or
+                         mname in helpers)):
+                    continue
+                n_w += 1
+                rep.saw(f)
+                rep.check(f is up or mname in helpers, rid, f,
+                          'the state of a pilot record is written by '
+                          '_update_pilot_states', construct=stmt,
+                          message='%s stores the state of a pilot record '
+                          '(`%s`) outside _update_pilot_states: this store is '
+                          'not normalised by _pilot_state_progress, so the '
+                          'state the scheduler works with can move backwards '
+                          'or leave a final state' % (f.qual, short(stmt, 60)),
+                          loc=f.loc(stmt), history='pilot is DONE; a late '
+                          'PMGR_ACTIVE notification reaches this store: the '
+                          'scheduler considers the pilot usable again')
+    if not n_w:
+        raise AnalysisError('UNRECOGNISED-IDIOM %s: no store of the state of '
+                            'a pilot record below %s' % (up.where, ATTR))
+
+    # (b) the recorded state after one notification, by value ------------------
+    ip = _RecordInterp(prog, sc, prog_f, tab, inv, final,
+                       inputs={'_pilot_state_inv': inv}, max_states=200000)
+    ABSENT = '<no record>'
+    rank = lambda x: tab[x]
+
+    def expected(cur, tgt):
+        if rank(cur) < rank(tgt):
+            return 'ahead', {tgt}
+        if cur in final and tgt in final:
+            return 'final', set(final)
+        return 'stale', {cur}
+
+    # contradicting final states: the specification (R14.1) lets the progress
+    # function raise; nothing is recorded then
+    plain = Interp(prog, None, inputs={'_pilot_state_inv': inv})
+    ppar = prog_f.params
+    raising = set()
+    if len(ppar) == 3:
+        for cur in final:
+            for tgt in final:
+                if cur != tgt and not plain.run(
+                        prog_f, {ppar[0]: PUID, ppar[1]: cur, ppar[2]: tgt}):
+                    raising.add((cur, tgt))
+
+    for tgt in states:
+        bad = None
+        for cur in [ABSENT, None] + states:
+            if (cur, tgt) in raising:
+                continue
+            recs = {} if cur is ABSENT else {
+                PUID: {'role': None, 'state': cur, 'pilot': None, 'info': {}}}
+            c0 = None if cur is ABSENT else cur
+            env = {plist: [{'uid': PUID, 'state': tgt, 'type': 'pilot'}],
+                   ATTR: recs, SEQ: ()}
+            exits = ip.run(up, env, inlined=True)
+            kind, want = expected(c0, tgt)
+            if not exits:
+                if kind == 'final':
+                    continue         # contradicting finals: progress raises
+                raise AnalysisError('UNRECOGNISED-IDIOM %s: no path reaches '
+                                    'the end of the method for a pilot '
+                                    'recorded as %s and notified %s'
+                                    % (up.where, cur, tgt))
+            got = []
+            for fe in exits:
+                d = dict(fe)
+                rec = thaw(d.get(ATTR, UNK))
+                st = _RecordInterp._at(rec, [PUID, 'state']) \
+                    if isinstance(rec, dict) else UNK
+                if st is UNK or isinstance(st, Sym):
+                    raise AnalysisError('UNRECOGNISED-IDIOM %s: the state '
+                                        'recorded for a pilot in %s that is '
+                                        'notified %s cannot be evaluated'
+                                        % (up.where, cur, tgt))
+                got.append((st, bool(d.get('@c'))))
+            wrong = [st for st, c in got if st not in want]
+            decided = [st for st, c in got if not c and st not in want]
+            if decided or len(wrong) == len(got):
+                cand = (abs(rank(tgt) - rank(c0)), cur,
+                        sorted(set(decided or wrong), key=repr)[0], kind)
+                bad = cand if bad is None or cand[0] < bad[0] else bad
+            elif wrong:
+                rep.info(rid, up, 'pilot recorded as %s notified %s: only '
+                         'paths whose conditions cannot be decided record %s'
+                         % (cur, tgt, sorted(set(wrong), key=repr)), up.loc())
+        if bad:
+            _, cur, st, kind = bad
+            if kind == 'ahead':
+                why = 'the notification is ahead of the recorded state and ' \
+                      'must be recorded'
+                hist = 'the scheduler has the pilot as %s and is notified ' \
+                       '%s: it keeps %s (a pilot that became PMGR_ACTIVE is ' \
+                       'never used, a pilot that ended is still scheduled ' \
+                       'on)' % (cur, tgt, st)
+            else:
+                why = 'the notification is not ahead of the recorded state: ' \
+                      'the record must keep %s (the state returned by ' \
+                      '_pilot_state_progress, not the raw state of the ' \
+                      'notification, is the one to store)' % cur
+                hist = 'the scheduler has the pilot as %s and a late / ' \
+                       'reordered %s notification arrives: the record goes ' \
+                       'back to %s%s' % (
+                           cur, tgt, st, ' - the pilot is gone, yet tasks are '
+                           'scheduled onto it again' if cur in final else '')
+        rep.check(bad is None, rid, up, 'notification for %s: the record '
+                  'holds the later of the recorded state and %s afterwards, '
+                  'whatever was recorded' % (tgt, tgt),
+                  construct='record:%s' % tgt,
+                  message='%s: for a pilot recorded as %s that is notified '
+                  '%s the scheduler records %s afterwards: %s'
+                  % ((up.qual, bad[1], tgt, bad[2], why) if bad
+                     else (up.qual, '', tgt, '', '')),
+                  loc=up.loc(), history=hist if bad else '')
+    rep.stat('interp_states', ip.states)
 
 
 # ------------------------------------------------------------------------------
@@ -2544,7 +3169,374 @@ def r14_4_5(prog, rep, defs):
               'signal file is not reported FAILED' % (failed, dflt), loc=locb,
               history='agent is killed by the batch system before finalize '
               'runs')
+    return writes
 
+
+
+# ------------------------------------------------------------------------------
+# R14.11  the bootstrapper reads the signal file whenever it exists
+#
+# A small model of the block structure of a POSIX shell script: the text is
+# cut into simple commands (at newlines and `;` outside quotes, command
+# substitutions and here-documents; comments dropped) and the reserved words
+# if / then / elif / else / fi, while / until / for / do / done, case / esac,
+# `{` / `}` and function headers are followed with a stack.  For a command the
+# model answers: which conditions is it control dependent on, with which
+# polarity.  Everything else of the shell (expansion, redirection, what a
+# command does) is out of its reach.
+#
+def _sh_commands(text):
+    """[(line number, command text)] - simple commands in source order"""
+    out = []
+    cur, line, start = [], 1, 1
+    i, n = 0, len(text)
+    sq = dq = False
+    depth = 0            # $( ... ) / ( ... ) nesting
+    bt = False           # `...`
+    heredocs = []        # delimiters waiting for the end of this line
+
+    def flush():
+        t = ''.join(cur).strip()
+        if t:
+            out.append((start, t))
+        del cur[:]
+
+    while i < n:
+        c = text[i]
+        if c == '\n':
+            line += 1
+            if heredocs and not sq and not dq:
+                # skip the bodies
+                for delim, strip in heredocs:
+                    while i < n:
+                        j = text.find('\n', i + 1)
+                        body = text[i + 1: j if j >= 0 else n]
+                        i = j if j >= 0 else n
+                        line += 1
+                        if (body.lstrip('\t') if strip else body) == delim \
+                                or j < 0:
+                            break
+                line -= 1
+                heredocs = []
+                flush()
+                start = line + 1
+                i += 1
+                line += 1
+                continue
+            if sq or dq or depth or bt:
+                cur.append(' ')
+            elif cur and ''.join(cur).rstrip().endswith('\\'):
+                t = ''.join(cur).rstrip()[:-1]
+                del cur[:]
+                cur.append(t + ' ')
+            else:
+                flush()
+                start = line
+            i += 1
+            continue
+        if not cur or not ''.join(cur).strip():
+            start = line
+        if sq:
+            cur.append(c)
+            sq = c != "'"
+            i += 1
+            continue
+        if c == '\\' and i + 1 < n and text[i + 1] != '\n':
+            cur.append(text[i:i + 2])
+            i += 2
+            continue
+        if dq:
+            cur.append(c)
+            if c == '"':
+                dq = False
+            elif c == '$' and text[i + 1:i + 2] == '(':
+                pass         # (substitution inside quotes: kept as text)
+            i += 1
+            continue
+        if c == "'":
+            sq = True
+        elif c == '"':
+            dq = True
+        elif c == '`':
+            bt = not bt
+        elif c == '#' and not bt and (i == 0 or text[i - 1] in ' \t\n;'):
+            j = text.find('\n', i)
+            i = j if j >= 0 else n
+            continue
+        elif c == '(' and (depth or text[i - 1:i] == '$'):
+            depth += 1
+        elif c == ')' and depth:
+            depth -= 1
+        elif c == ';' and not depth and not bt:
+            flush()
+            i += 1
+            continue
+        elif c == '<' and text[i:i + 2] == '<<' and text[i:i + 3] != '<<<' \
+                and not depth and not bt:
+            m = re.match(r'<<(-?)\s*(["\']?)([A-Za-z_][A-Za-z0-9_]*)\2',
+                         text[i:])
+            if m:
+                heredocs.append((m.group(3), bool(m.group(1))))
+                cur.append(m.group(0))
+                i += len(m.group(0))
+                continue
+        cur.append(c)
+        i += 1
+    flush()
+    return out
+
+
+def _sh_split_list(cmd):
+    """parts of an and-or list: [(operator in front: None / '&&' / '||',
+    text)], split outside quotes and substitutions"""
+    parts, cur, op = [], [], None
+    sq = dq = bt = False
+    depth = 0
+    i, n = 0, len(cmd)
+    while i < n:
+        c = cmd[i]
+        if sq:
+            sq = c != "'"
+        elif c == '\\':
+            cur.append(cmd[i:i + 2])
+            i += 2
+            continue
+        elif dq:
+            dq = c != '"'
+        elif c == "'":
+            sq = True
+        elif c == '"':
+            dq = True
+        elif c == '`':
+            bt = not bt
+        elif c == '(':
+            depth += 1
+        elif c == ')' and depth:
+            depth -= 1
+        elif not depth and not bt and cmd[i:i + 2] in ('&&', '||'):
+            parts.append((op, ''.join(cur).strip()))
+            cur, op = [], cmd[i:i + 2]
+            i += 2
+            continue
+        cur.append(c)
+        i += 1
+    parts.append((op, ''.join(cur).strip()))
+    return parts
+
+
+def _sh_context(text, is_target):
+    """[(line, command, [(condition text, holds: bool)] or None)] for every
+    command the predicate selects: the conditions of the enclosing if-blocks
+    and of the and-or list in front of it (None: inside a loop, a case, a
+    function, or the test of an `if` itself - the model cannot say when it
+    runs).  Raises AnalysisError if the reserved words do not pair up."""
+    stack = []
+    found = []
+    prev = ''
+
+    def bad(line, why):
+        raise AnalysisError('UNRECOGNISED-IDIOM %s line %d: shell block '
+                            'structure not understood (%s)' % (BOOT, line, why))
+
+    for line, cmd in _sh_commands(text):
+        rest = cmd
+        while rest:
+            m = re.match(r'([^\s]+)\s*(.*)$', rest, re.S)
+            w, tail = m.group(1), m.group(2)
+            if w in ('then', 'else', 'do'):
+                if not stack:
+                    bad(line, '`%s` outside a block' % w)
+                top = stack[-1]
+                if w == 'do':
+                    if top['kind'] != 'loop':
+                        bad(line, '`do` outside a loop')
+                    top['branch'] = 'body'
+                else:
+                    if top['kind'] != 'if':
+                        bad(line, '`%s` outside an if' % w)
+                    if w == 'else':
+                        top['prior'].append(top['cond'])
+                        top['cond'] = None
+                    top['branch'] = w
+                rest = tail
+                continue
+            if w == '{':
+                stack.append({'kind': 'func' if re.search(
+                    r'(\(\s*\)|^function\s+\S+)\s*$', prev) else 'brace'})
+                rest = tail
+                continue
+            break
+        if not rest:
+            prev = cmd
+            continue
+        m = re.match(r'([^\s]+)\s*(.*)$', rest, re.S)
+        w, tail = m.group(1), m.group(2)
+        if w == 'if':
+            stack.append({'kind': 'if', 'cond': tail, 'prior': [],
+                          'branch': 'test'})
+        elif w == 'elif':
+            if not stack or stack[-1]['kind'] != 'if':
+                bad(line, '`elif` outside an if')
+            stack[-1]['prior'].append(stack[-1]['cond'])
+            stack[-1]['cond'] = tail
+            stack[-1]['branch'] = 'test'
+        elif w == 'fi':
+            if not stack or stack[-1]['kind'] != 'if':
+                bad(line, '`fi` without if')
+            stack.pop()
+        elif w in ('while', 'until', 'for', 'select'):
+            stack.append({'kind': 'loop', 'branch': 'test'})
+        elif w == 'done':
+            if not stack or stack[-1]['kind'] != 'loop':
+                bad(line, '`done` without loop')
+            stack.pop()
+        elif w == 'case':
+            stack.append({'kind': 'case'})
+        elif w == 'esac':
+            if not stack or stack[-1]['kind'] != 'case':
+                bad(line, '`esac` without case')
+            stack.pop()
+        elif w == '}':
+            if not stack or stack[-1]['kind'] not in ('func', 'brace'):
+                bad(line, '`}` without `{`')
+            stack.pop()
+        elif re.match(r'(function\s+)?[A-Za-z_][\w.-]*\s*\(\s*\)\s*\{?$', rest) \
+                or re.match(r'function\s+[A-Za-z_][\w.-]*\s*\{?$', rest):
+            if rest.endswith('{'):
+                stack.append({'kind': 'func'})
+        else:
+            parts = _sh_split_list(rest)
+            for k, (op, t) in enumerate(parts):
+                if not is_target(t):
+                    continue
+                conds = []
+                for fr in stack:
+                    if fr['kind'] == 'brace':
+                        continue
+                    if fr['kind'] != 'if' or fr['branch'] == 'test':
+                        conds = None
+                        break
+                    conds += [(c, False) for c in fr['prior']]
+                    if fr['branch'] == 'then':
+                        conds.append((fr['cond'], True))
+                if conds is not None:
+                    ops = {o for o, _ in parts[1:k + 1]}
+                    if len(ops) > 1:
+                        conds = None      # a && b || c: not a plain guard
+                    else:
+                        conds += [(pt, o == '&&') for (_, pt), (o, _) in
+                                  zip(parts[:k], parts[1:k + 1])]
+                found.append((line, t, conds))
+        prev = cmd
+    if stack:
+        raise AnalysisError('UNRECOGNISED-IDIOM %s: shell block structure not '
+                            'understood (%d block(s) left open at the end of '
+                            'the file)' % (BOOT, len(stack)))
+    return found
+
+
+def _sh_atoms(cond, holds):
+    """[(kind, operator, operand, holds)] for the commands of a condition
+    list joined by && (kind: 'test' with a unary / other operator, or
+    'command'); None if it cannot be taken apart"""
+    parts = _sh_split_list(cond)
+    if any(o == '||' for o, _ in parts):
+        return None
+    if not holds and len(parts) > 1:
+        return None                  # not (a && b): either may fail
+    out = []
+    for _, t in parts:
+        pos = holds
+        while t.startswith('!'):
+            pos = not pos
+            t = t[1:].strip()
+        m = re.match(r'(?:test\s+(.*)|\[\[\s+(.*?)\s+\]\]|\[\s+(.*?)\s+\])\s*$',
+                     t, re.S)
+        if not m:
+            out.append(('command', None, t, pos))
+            continue
+        body = next(x for x in m.groups() if x is not None).strip()
+        while body.startswith('!'):
+            pos = not pos
+            body = body[1:].strip()
+        u = re.match(r'-([A-Za-z])\s+("[^"]*"|\'[^\']*\'|\S+)$', body)
+        if u:
+            out.append(('test', '-' + u.group(1), u.group(2), pos))
+        else:
+            out.append(('test', None, body, pos))
+    return out
+
+
+def r14_11(prog, rep, writes, rid='R14.11'):
+    rep.rule(rid, 'bootstrap_0.sh reads the signal file into final_state '
+             'whenever the file exists: the read is control dependent on '
+             'nothing but (positive) tests of that file', minimum=1)
+    sh = prog.read_text(BOOT)
+    WB = '%s::final_state' % BOOT
+    locb = 'src/radical/pilot/%s' % BOOT
+
+    def norm(p):
+        return os.path.normpath(p.strip().strip('"\''))
+
+    names = sorted({norm(p) for _, p, _ in writes})
+    if len(names) != 1:
+        raise AnalysisError('%s: finalize does not write one signal file '
+                            '(see R14.5)' % rid)
+    name = names[0]
+    rd = re.compile(r'^final_state=["\']?\$\(\s*cat\s+([^\s)]+)[^)]*\)["\']?$')
+    reads = _sh_context(sh, lambda t: bool(rd.match(t)))
+    if not reads:
+        raise AnalysisError('%s: %s has no command final_state=$(cat <file>)'
+                            % (rid, BOOT))
+    verdicts = []
+    for line, cmd, conds in reads:
+        if norm(rd.match(cmd).group(1)) != name:
+            continue                                    # (R14.5 reports it)
+        if conds is None:
+            raise AnalysisError('UNRECOGNISED-IDIOM %s line %d: the read of '
+                                'the signal file sits in a loop, a case, a '
+                                'function or the test of an if'
+                                % (BOOT, line))
+        extra = []
+        for cond, holds in conds:
+            atoms = _sh_atoms(cond, holds)
+            if atoms is None:
+                raise AnalysisError('UNRECOGNISED-IDIOM %s line %d: condition '
+                                    '`%s` of the read of the signal file '
+                                    'cannot be taken apart' % (BOOT, line,
+                                                               cond))
+            for kind, op, operand, pos in atoms:
+                if kind == 'test' and op in ('-e', '-f', '-s', '-r') and \
+                        norm(operand) == name:
+                    if not pos:
+                        extra.append(('the file %s does NOT exist' % name,
+                                      cond))
+                elif kind == 'test':
+                    extra.append(('`%s%s` as well' % ('' if holds else '! ',
+                                                      cond), cond))
+                else:
+                    raise AnalysisError('UNRECOGNISED-IDIOM %s line %d: the '
+                                        'read of the signal file depends on '
+                                        'the command `%s`' % (BOOT, line,
+                                                              operand))
+        verdicts.append((line, cmd, extra))
+    if not verdicts:
+        raise AnalysisError('%s: %s does not read %s (see R14.5)'
+                            % (rid, BOOT, name))
+    bad = [v for v in verdicts if v[2]]
+    ok = len(bad) < len(verdicts)
+    line, cmd, extra = (bad or verdicts)[0]
+    rep.check(ok, rid, WB, 'the read of %s depends on the existence of the '
+              'file only' % name, construct='read-guard',
+              message='bootstrap_0.sh (line %d) reads %s into final_state '
+              'only if %s: when the agent left the signal file but that '
+              'condition does not hold, the state the agent chose is not '
+              'read and the pilot is reported with the default (FAILED)'
+              % (line, name, ' and '.join(e[0] for e in extra) or '-'),
+              loc=locb, history='the agent reaches its runtime limit (or is '
+              'canceled by request), writes DONE (CANCELED) to %s and ends by '
+              'itself with exit code 0: final_state stays empty and is reset '
+              'to FAILED' % name)
 
 
 # ------------------------------------------------------------------------------
@@ -2641,6 +3633,65 @@ def r14_6(prog, rep, rid='R14.6'):
                         return same if isinstance(op, ast.Eq) else not same
         return None
 
+    def local_predicate(c):
+        """(parameter name, returned expression) of the one-argument predicate
+        a call denotes: a function defined inside the callback, a lambda bound
+        once to a local name, or a resolved method of the class - each with a
+        body that is one `return <expr>`"""
+        fn = None
+        if isinstance(c.func, ast.Name):
+            nested = [n for n in ast.walk(f.node)
+                      if isinstance(n, ast.FunctionDef) and n is not f.node
+                      and n.name == c.func.id]
+            ds = _defs(f, c.func.id)
+            if len(nested) == 1 and not ds:
+                fn = nested[0]
+            elif not nested and len(ds) == 1 and ds[0][2] is None and \
+                    isinstance(ds[0][1], ast.Lambda):
+                lam = ds[0][1]
+                ps = [a.arg for a in lam.args.args]
+                if len(ps) == 1 and not lam.args.defaults:
+                    return ps[0], lam.body
+                return None
+        else:
+            try:
+                gi = prog.resolve_call(f, c, pm)
+            except Exception:
+                gi = None
+            fn = gi.node if gi is not None and gi.cls is not None else None
+        if fn is None:
+            return None
+        ps = [a.arg for a in fn.args.args if a.arg not in ('self', 'cls')]
+        body = [b for b in fn.body if not (isinstance(b, ast.Expr) and
+                                           isinstance(b.value, ast.Constant))]
+        if len(ps) != 1 or len(body) != 1 or \
+                not isinstance(body[0], ast.Return) or body[0].value is None:
+            return None
+        return ps[0], body[0].value
+
+    def holds(cond, var, depth=0):
+        """True / False / None: value of a condition for a thing of type
+        pilot held by `var`"""
+        if depth > 4:
+            return None
+        if isinstance(cond, ast.BoolOp):
+            vals = [holds(x, var, depth) for x in cond.values]
+            if isinstance(cond.op, ast.And):
+                return False if False in vals else (
+                    True if all(v is True for v in vals) else None)
+            return True if True in vals else (
+                False if all(v is False for v in vals) else None)
+        if isinstance(cond, ast.UnaryOp) and isinstance(cond.op, ast.Not):
+            v = holds(cond.operand, var, depth)
+            return None if v is None else not v
+        if isinstance(cond, ast.Call) and len(cond.args) == 1 and \
+                not cond.keywords and unparse(cond.args[0]) == var:
+            lp = local_predicate(cond)
+            if lp is not None:
+                return holds(lp[1], lp[0], depth + 1)
+            return None
+        return classify(cond, var)
+
     # (1) the loop covers every thing of the message ---------------------------
     def from_msg(e, depth=0):
         """'all' | 'some' | None: e denotes all things of the message"""
@@ -2663,7 +3714,8 @@ def r14_6(prog, rep, rid='R14.6'):
         if isinstance(e, ast.Call) and call_name(e) in ('ru.as_list', 'list') \
                 and len(e.args) == 1:
             return from_msg(e.args[0], depth + 1)
-        if isinstance(e, ast.ListComp) and len(e.generators) == 1 and \
+        if isinstance(e, (ast.ListComp, ast.GeneratorExp)) and \
+                len(e.generators) == 1 and \
                 isinstance(e.generators[0].target, ast.Name) and \
                 unparse(e.elt) == e.generators[0].target.id:
             gen = e.generators[0]
@@ -2671,11 +3723,8 @@ def r14_6(prog, rep, rid='R14.6'):
             if base != 'all':
                 return base
             for cond in gen.ifs:
-                atoms = cond.values if isinstance(cond, ast.BoolOp) and \
-                    isinstance(cond.op, ast.And) else [cond]
-                for a in atoms:
-                    if classify(a, gen.target.id) is not True:
-                        return 'some'
+                if holds(cond, gen.target.id) is not True:
+                    return 'some'
             return 'all'
         if isinstance(e, ast.Subscript):
             return 'some' if from_msg(e.value, depth + 1) else None
@@ -2703,7 +3752,7 @@ def r14_6(prog, rep, rid='R14.6'):
         if edge.label == 'exc':
             return st
         if node.kind == 'test' and edge.label in ('T', 'F'):
-            v = classify(node.ast, tv)
+            v = holds(node.ast, tv)
             if v is not None and (edge.label == 'T') != v:
                 return None
             return st
@@ -2835,9 +3884,16 @@ def run(prog, rep, tier):
         'runtime expiry to DONE, a cancel request to CANCELED and no cause '
         'to FAILED in both killme.signal and the final update; the signal '
         'file name and FAILED default agree with bootstrap_0.sh; the pilot '
-        'manager applies every pilot notification of a bulk message.')
-    rep.undecided = ('what bootstrap_0.sh does with the state beyond the '
-        'file-name contract; delivery order/timing of notifications; '
+        'manager applies every pilot notification of a bulk message; '
+        '_update_pilot, evaluated for a notification whose uid is not in '
+        'self._pilots, performs no failing lookup and applies nothing '
+        '(R14.9); the task manager scheduler records, for every pair '
+        '(recorded, notified) of table states, the later one and '
+        '_update_pilot_states is the only writer of that record (R14.10); '
+        'the read of the signal file in bootstrap_0.sh depends on nothing '
+        'but the existence of the file (R14.11).')
+    rep.undecided = ('what bootstrap_0.sh does with final_state after it is '
+        'set; delivery order/timing of notifications; '
         'exceptions raised by _pilot_state_progress on contradictory finals; '
         'which handler of a specific reason (runtime limit, cancel request) '
         'wins when both occur before finalize (either final state is then '
@@ -2856,13 +3912,24 @@ def run(prog, rep, tier):
         'self._pilots; a method called from one method only is the handler '
         'of one specific termination reason (R14.8 looks at shared ones)',
         'bootstrap_0.sh is matched textually for `final_state=$(cat F)`, '
-        '`test -e F` and the `test -z "$final_state"` default block only',
+        '`test -e F` and the `test -z "$final_state"` default block; '
+        'R14.11 adds a model of its block structure (if / elif / else / fi, '
+        'loops, case, functions, and-or lists; comments and here-documents '
+        'skipped) that only answers under which conditions a command runs',
+        'R14.9 / R14.10 evaluate one notification against one known pilot '
+        '(record); a lookup is taken to fail only when the dict is completely '
+        'known and lacks the key, or the receiver is the None a .get returned',
     ]
     rep.attempt(r14_1, prog, rep)
     by_value = bool(rep.attempt(r14_7, prog, rep))
-    rep.attempt(r14_2, prog, rep, tier=tier, by_value=by_value)
+    unknown_by_value = bool(rep.attempt(r14_9, prog, rep))
+    rep.attempt(r14_2, prog, rep, tier=tier, by_value=by_value,
+                unknown_by_value=unknown_by_value)
+    rep.attempt(r14_10, prog, rep)
     defs = rep.attempt(r14_3, prog, rep)
-    rep.attempt(r14_4_5, prog, rep, defs)
+    writes = rep.attempt(r14_4_5, prog, rep, defs)
+    if writes:
+        rep.attempt(r14_11, prog, rep, writes)
     rep.attempt(r14_8, prog, rep)
     rep.attempt(r14_6, prog, rep)
     if tier == 'thorough':
@@ -2888,6 +3955,7 @@ _A = 'agent/agent_0.py'
 _P = 'pilot_manager.py'
 _S = 'states.py'
 _F = 'pilot.py'
+_T = 'tmgr/scheduler/base.py'
 
 # F04 (proposed_fixes/F04.diff) is committed in /repo; the variants below are
 # written against the repaired stop()
@@ -2914,12 +3982,24 @@ MUTATIONS = [
     dict(name='R14.1 no-progress guard dropped', rules=('R14.1',), edits=[
         (_S, "    cur = _pilot_state_values[current]\n    tgt = _pilot_state_values[target]\n\n    if cur >= tgt:\n        # nothing to do, a similar or better progression happened earlier\n        return [current, []]\n",
              "    cur = _pilot_state_values[current]\n    tgt = _pilot_state_values[target]\n")]),
-    dict(name='R14.2 unknown pilots not ignored', rules=('R14.2',), edits=[
+    dict(name='R14.9 unknown pilots not ignored', rules=('R14.9',), edits=[
         (_P, "            if pid not in self._pilots:\n                return   # this is not an error\n\n            # only update on state changes",
              "            # only update on state changes")]),
-    dict(name='R14.2 unknown-pilot test inverted', rules=('R14.2',), edits=[
+    dict(name='R14.9 unknown-pilot test inverted', rules=('R14.9',), edits=[
         (_P, "            if pid not in self._pilots:\n                return   # this is not an error\n\n            # only update on state changes",
              "            if pid in self._pilots:\n                return   # this is not an error\n\n            # only update on state changes")]),
+    dict(name='R14.9 seed C14-g2: pilot looked up in front of the unknown-pilot test', rules=('R14.9',), edits=[
+        (_P, "            # we don't care about pilots we don't know\n            if pid not in self._pilots:\n                return   # this is not an error\n\n            # only update on state changes\n            current = self._pilots[pid].state\n",
+             "            current = self._pilots[pid].state\n\n            # we don't care about pilots we don't know\n            if pid not in self._pilots:\n                return   # this is not an error\n\n            # only update on state changes\n")]),
+    dict(name='R14.9 pilot fetched with get, its state read in front of the None test', rules=('R14.9',), edits=[
+        (_P, "            if pid not in self._pilots:\n                return   # this is not an error\n\n            # only update on state changes\n            current = self._pilots[pid].state\n",
+             "            pilot   = self._pilots.get(pid)\n            current = pilot.state\n            if pilot is None:\n                return   # this is not an error\n\n")]),
+    dict(name='R14.9 None test on the fetched pilot inverted', rules=('R14.9',), edits=[
+        (_P, "            if pid not in self._pilots:\n                return   # this is not an error\n\n            # only update on state changes\n            current = self._pilots[pid].state\n",
+             "            pilot = self._pilots.get(pid)\n            if pilot is not None:\n                return\n\n            current = pilot.state\n")]),
+    dict(name='R14.9 unknown pilot logged with its current state before the return', rules=('R14.9',), edits=[
+        (_P, "            if pid not in self._pilots:\n                return   # this is not an error\n",
+             "            if pid not in self._pilots:\n                self._log.debug('unknown pilot %s [%s]', pid,\n                                self._pilots[pid].state)\n                return   # this is not an error\n")]),
     dict(name='R14.2 replay does not set the passed state', rules=('R14.2', 'R14.7'), edits=[
         (_P, "                pilot_dict['state'] = s\n                self._pilots[pid]._update(pilot_dict)",
              "                self._pilots[pid]._update(pilot_dict)")]),
@@ -3004,6 +4084,15 @@ MUTATIONS = [
         (BOOT, "final_state=$(cat ./killme.signal)", "final_state=$(cat ./agent.signal)")]),
     dict(name='R14.5 bootstrapper default is DONE', rules=('R14.5',), edits=[
         (BOOT, "    final_state='FAILED'", "    final_state='DONE'")]),
+    dict(name='R14.11 seed C14-g6: signal file read only for a non-zero agent exit code', rules=('R14.11',), edits=[
+        (BOOT, "    final_state=$(cat ./killme.signal)\n    if ! test \"$AGENT_EXITCODE\" = \"0\"\n    then\n",
+               "    if ! test \"$AGENT_EXITCODE\" = \"0\"\n    then\n        final_state=$(cat ./killme.signal)\n")]),
+    dict(name='R14.11 signal file read behind an and-list on the exit code', rules=('R14.11',), edits=[
+        (BOOT, "    final_state=$(cat ./killme.signal)\n",
+               "    test \"$AGENT_EXITCODE\" = \"0\" && final_state=$(cat ./killme.signal)\n")]),
+    dict(name='R14.11 signal file read in the else branch of its existence test', rules=('R14.11',), edits=[
+        (BOOT, "if test -e \"./killme.signal\"\nthen\n    # this agent died cleanly, and we can rely on thestate information given.\n    final_state=$(cat ./killme.signal)\n    if ! test \"$AGENT_EXITCODE\" = \"0\"\n    then\n        echo \"changing exit code from $AGENT_EXITCODE to 0 for canceled pilot\"\n        AGENT_EXITCODE=0\n    fi\nfi\n",
+               "if test -e \"./killme.signal\"\nthen\n    if ! test \"$AGENT_EXITCODE\" = \"0\"\n    then\n        echo \"changing exit code from $AGENT_EXITCODE to 0 for canceled pilot\"\n        AGENT_EXITCODE=0\n    fi\nelse\n    final_state=$(cat ./killme.signal)\nfi\n")]),
     dict(name='R14.5 signal file appended, not truncated', rules=('R14.5',), edits=[
         (_A, "ru.ru_open('./killme.signal', 'w')", "ru.ru_open('./killme.signal', 'a')")]),
     dict(name='R14.7 seed C14-c: intermediate states dropped for every final target', rules=('R14.7',), edits=[
@@ -3024,6 +4113,18 @@ MUTATIONS = [
     dict(name='R14.7 Pilot._update no longer exempts CANCELED from the single-step test', rules=('R14.7',), edits=[
         (_F, "        if target not in [rps.FAILED, rps.CANCELED]:\n",
              "        if target not in [rps.FAILED]:\n")]),
+    dict(name='R14.10 seed C14-g5: scheduler stores the raw notified state', rules=('R14.10',), edits=[
+        (_T, "                target, passed = rps._pilot_state_progress(pid, current, target)\n",
+             "                _, passed = rps._pilot_state_progress(pid, current, target)\n")]),
+    dict(name='R14.10 scheduler no longer normalises the notified state', rules=('R14.10',), edits=[
+        (_T, "                target, passed = rps._pilot_state_progress(pid, current, target)\n",
+             "                passed = [target]\n")]),
+    dict(name='R14.10 scheduler records only when nothing changed', rules=('R14.10',), edits=[
+        (_T, "                if current != target:\n                    to_update.append(pid)\n",
+             "                if current == target:\n                    to_update.append(pid)\n")]),
+    dict(name='R14.10 add_pilots copies the state of the pilot dict into the record', rules=('R14.10',), edits=[
+        (_T, "                    self._pilots[pid]['pilot'] = pilot\n",
+             "                    self._pilots[pid]['pilot'] = pilot\n                    self._pilots[pid]['state'] = pilot['state']\n")]),
     dict(name='R14.8 seed C14-d: stop(cause) records unconditionally, terminate path uses the default', rules=('R14.8',), edits=[
         (_A, "                self._final_cause = 'timeout'\n                self.stop()\n",
              "                self.stop(cause='timeout')\n"),
@@ -3100,6 +4201,18 @@ SILENT = [
         (_P, "        if isinstance(arg, list): things =  arg\n        else                    : things = [arg]\n", "        things = ru.as_list(arg)\n"),
         (_P, "                self._update_pilot(thing, publish=False)\n",
              "                self._update_pilot(thing, publish=False)\n                if self._terminate.is_set():\n                    return False\n")]),
+    dict(name='unknown pilot: fetched with get and tested for None, pilot cached', edits=[
+        (_P, "            if pid not in self._pilots:\n                return   # this is not an error\n\n            # only update on state changes\n            current = self._pilots[pid].state\n",
+             "            pilot = self._pilots.get(pid)\n            if not pilot:\n                return   # this is not an error\n\n            current = pilot.state\n")]),
+    dict(name='unknown pilot: lookup in a try block, KeyError returns', edits=[
+        (_P, "            if pid not in self._pilots:\n                return   # this is not an error\n\n            # only update on state changes\n            current = self._pilots[pid].state\n",
+             "            try:\n                pilot = self._pilots[pid]\n            except KeyError:\n                return   # this is not an error\n\n            current = pilot.state\n")]),
+    dict(name='unknown pilot: membership kept in a local, tested later', edits=[
+        (_P, "            if pid not in self._pilots:\n                return   # this is not an error\n\n            # only update on state changes\n            current = self._pilots[pid].state\n",
+             "            known = pid in self._pilots\n            if not known:\n                return   # this is not an error\n\n            current = self._pilots[pid].state\n")]),
+    dict(name='unknown pilot: state read under the positive test, return otherwise', edits=[
+        (_P, "            if pid not in self._pilots:\n                return   # this is not an error\n\n            # only update on state changes\n            current = self._pilots[pid].state\n",
+             "            if pid in self._pilots:\n                current = self._pilots[pid].state\n            else:\n                return   # this is not an error\n")]),
     dict(name='unknown-pilot guard as positive nesting', edits=[
         (_P, "            if pid not in self._pilots:\n                return   # this is not an error\n\n            # only update on state changes\n            current = self._pilots[pid].state\n            target  = pilot_dict['state']\n\n            # always update the pilot instance, even if state didn't change\n            if current == target:\n                self._pilots[pid]._update(pilot_dict)\n                return\n",
              "            if pid not in self._pilots:\n                return   # this is not an error\n\n            # only update on state changes\n            current = self._pilots[pid].state\n            target  = pilot_dict['state']\n\n            # always update the pilot instance, even if state didn't change\n            if current != target:\n                pass\n            else:\n                self._pilots[pid]._update(pilot_dict)\n                return\n")]),
@@ -3109,6 +4222,18 @@ SILENT = [
     dict(name='progress guard written as cur < tgt', edits=[
         (_S, "    if cur >= tgt:\n        # nothing to do, a similar or better progression happened earlier\n        return [current, []]\n\n    # dig out all intermediate states, skip current\n    passed = list()\n    for i in range(cur + 1,tgt):\n        passed.append(_pilot_state_inv[i])\n\n    # append target state to trigger notification of transition\n    passed.append(target)\n\n    return target, passed\n\n\n# ------------------------------------------------------------------------------\n#\ndef _pilot_state_collapse",
              "    if tgt > cur:\n        passed = []\n        for step in range(1 + cur, tgt):\n            passed.append(_pilot_state_inv[step])\n        passed.append(target)\n        return target, passed\n\n    return [current, list()]\n\n\n# ------------------------------------------------------------------------------\n#\ndef _pilot_state_collapse")]),
+    dict(name='bootstrapper: existence test with [ ] and then on the same line', edits=[
+        (BOOT, "if test -e \"./killme.signal\"\nthen\n    # this agent died cleanly",
+               "if [ -e ./killme.signal ]; then\n    # this agent died cleanly")]),
+    dict(name='bootstrapper: signal file read after the exit code is reset', edits=[
+        (BOOT, "    final_state=$(cat ./killme.signal)\n    if ! test \"$AGENT_EXITCODE\" = \"0\"\n    then\n        echo \"changing exit code from $AGENT_EXITCODE to 0 for canceled pilot\"\n        AGENT_EXITCODE=0\n    fi\n",
+               "    if ! test \"$AGENT_EXITCODE\" = \"0\"\n    then\n        echo \"changing exit code from $AGENT_EXITCODE to 0 for canceled pilot\"\n        AGENT_EXITCODE=0\n    fi\n    final_state=$(cat ./killme.signal)\n")]),
+    dict(name='bootstrapper: missing signal file handled first, read in the else branch', edits=[
+        (BOOT, "if test -e \"./killme.signal\"\nthen\n    # this agent died cleanly, and we can rely on thestate information given.\n    final_state=$(cat ./killme.signal)\n",
+               "if ! test -e \"./killme.signal\"\nthen\n    echo 'no signal file'\nelse\n    final_state=$(cat ./killme.signal)\n")]),
+    dict(name='bootstrapper: signal file read hoisted in front of the block as an and-list on the file', edits=[
+        (BOOT, "if test -e \"./killme.signal\"\nthen\n    # this agent died cleanly, and we can rely on thestate information given.\n    final_state=$(cat ./killme.signal)\n",
+               "test -s ./killme.signal && final_state=$(cat ./killme.signal)\nif test -e \"./killme.signal\"\nthen\n")]),
     dict(name='bootstrapper quotes the file differently', edits=[
         (BOOT, "final_state=$(cat ./killme.signal)", "final_state=$(cat killme.signal)")]),
     dict(name='cause passed to stop() by every caller, first cause wins', edits=[
@@ -3159,6 +4284,32 @@ SILENT = [
     dict(name='replay list copied, truncation by filtering', edits=[
         (_P, "            if target in [rps.CANCELED, rps.FAILED]:\n                # don't replay intermediate states\n                passed = passed[-1:]\n",
              "            if target in [rps.CANCELED, rps.FAILED]:\n                passed = [x for x in passed if x == target]\n")]),
+    dict(name='scheduler: store takes the state from the notification, still under the changed-test', edits=[
+        (_T, "                    self._pilots[pid]['state'] = target\n",
+             "                    self._pilots[pid]['state'] = pilot['state']\n")]),
+    dict(name='scheduler: progress result under other names', edits=[
+        (_T, "                target, passed = rps._pilot_state_progress(pid, current, target)\n\n                if current != target:\n                    to_update.append(pid)\n                    self._pilots[pid]['state'] = target\n",
+             "                new_state, replay = rps._pilot_state_progress(pid, current, target)\n                passed = replay\n\n                if new_state != current:\n                    to_update.append(pid)\n                    self._pilots[pid]['state'] = new_state\n")]),
+    dict(name='scheduler: pilot record cached in a local', edits=[
+        (_T, "                target  = pilot['state']\n                current = self._pilots[pid]['state']\n",
+             "                record  = self._pilots[pid]\n                target  = pilot['state']\n                current = record['state']\n"),
+        (_T, "                    self._pilots[pid]['state'] = target\n",
+             "                    record['state'] = target\n")]),
+    dict(name='scheduler: unchanged state skipped with continue, record created with setdefault', edits=[
+        (_T, "                if pid not in self._pilots:\n                    self._pilots[pid] = {'role'  : None,\n                                         'state' : None,\n                                         'pilot' : None,\n                                         'info'  : dict()  # scheduler private info\n                                         }\n",
+             "                self._pilots.setdefault(pid, {'role' : None, 'state': None,\n                                              'pilot': None, 'info' : dict()})\n"),
+        (_T, "                if current != target:\n                    to_update.append(pid)\n                    self._pilots[pid]['state'] = target\n                    self._log.debug('update pilot state: %s -> %s', current, passed)\n",
+             "                if current == target:\n                    continue\n\n                to_update.append(pid)\n                self._pilots[pid]['state'] = target\n                self._log.debug('update pilot state: %s -> %s', current, passed)\n")]),
+    dict(name='scheduler: the store in an extracted helper that gets the record', edits=[
+        (_T, "                    self._pilots[pid]['state'] = target\n",
+             "                    self._record_state(self._pilots[pid], target)\n"),
+        (_T, "    def _update_task_states(self, tasks):\n",
+             "    def _record_state(self, record, state):\n\n        record['state'] = state\n\n\n    # --------------------------------------------------------------------------\n    #\n    def _update_task_states(self, tasks):\n")]),
+    dict(name='scheduler: one pilot handled by an extracted method', edits=[
+        (_T, "                pid = pilot['uid']\n\n                if pid not in self._pilots:\n                    self._pilots[pid] = {'role'  : None,\n                                         'state' : None,\n                                         'pilot' : None,\n                                         'info'  : dict()  # scheduler private info\n                                         }\n\n                target  = pilot['state']\n                current = self._pilots[pid]['state']\n\n                # enforce state model order\n                target, passed = rps._pilot_state_progress(pid, current, target)\n\n                if current != target:\n                    to_update.append(pid)\n                    self._pilots[pid]['state'] = target\n                    self._log.debug('update pilot state: %s -> %s', current, passed)\n",
+             "                if self._update_pilot_state(pilot):\n                    to_update.append(pilot['uid'])\n"),
+        (_T, "    def _update_task_states(self, tasks):\n",
+             "    def _update_pilot_state(self, pilot):\n\n        pid = pilot['uid']\n\n        if pid not in self._pilots:\n            self._pilots[pid] = {'role'  : None,\n                                 'state' : None,\n                                 'pilot' : None,\n                                 'info'  : dict()}\n\n        current = self._pilots[pid]['state']\n        target, passed = rps._pilot_state_progress(pid, current,\n                                                   pilot['state'])\n        if current == target:\n            return False\n\n        self._pilots[pid]['state'] = target\n        self._log.debug('update pilot state: %s -> %s', current, passed)\n        return True\n\n\n    # --------------------------------------------------------------------------\n    #\n    def _update_task_states(self, tasks):\n")]),
     dict(name='Pilot._update exemption test with hoisted container', edits=[
         (_F, "        if target not in [rps.FAILED, rps.CANCELED]:\n",
              "        anywhere = (rps.CANCELED, rps.FAILED)\n        if target not in anywhere:\n")]),
@@ -3248,3 +4399,47 @@ def _edits_from_patch(text):
 
 
 SILENT += corpus_variants('C14')
+
+
+def _helper_variant():
+    """the replay loop extracted into a helper (refactoring C14-r7) which the
+    activation handler then also calls with the raw state of its message"""
+    patch = os.path.join(os.path.dirname(os.path.dirname(os.path.dirname(
+        os.path.abspath(__file__)))), 'seeded', 'C14-r7', 'patch.diff')
+    try:
+        edits = _edits_from_patch(open(patch).read())
+    except OSError:
+        return []
+    return [dict(name='R14.2 extracted replay helper also driven by the '
+                 'activation handler with the raw state', rules=('R14.2',),
+                 edits=edits + [
+        (_P, "            pilot = arg['pilot']\n            self._update_pilot(pilot, publish=True)\n",
+             "            pilot = arg['pilot']\n            self._replay_pilot_states(self._pilots[pilot['uid']], pilot,\n                                      [pilot['state']], publish=True,\n                                      advance=False)\n")])]
+
+
+MUTATIONS += _helper_variant()
+
+
+def _foreign_corpus(tags):
+    """refactorings collected for other properties that rewrite code this
+    module evaluates"""
+    out = []
+    base = os.path.join(os.path.dirname(os.path.dirname(os.path.dirname(
+        os.path.abspath(__file__)))), 'seeded')
+    for tag in tags:
+        try:
+            edits = _edits_from_patch(open(os.path.join(
+                base, tag, 'patch.diff')).read())
+        except OSError:
+            continue
+        if edits:
+            out.append(dict(name='corpus %s (behaviour-preserving '
+                            'refactoring of another property)' % tag,
+                            edits=edits))
+    return out
+
+
+# C12-r6: pilot records of the tmgr scheduler fetched / created by a helper
+# that returns them by reference; C13-r8: lazy generator filter with a nested
+# predicate in _state_sub_cb, cached pilot in _update_pilot
+SILENT += _foreign_corpus(['C12-r6', 'C13-r8'])
